@@ -19,6 +19,7 @@ from rdflib import Dataset, Graph, URIRef
 from rdflib.compare import graph_diff, isomorphic, to_canonical_graph, to_isomorphic
 from rdflib.graph import DATASET_DEFAULT_GRAPH_ID
 from rdflib.paths import MulPath
+from rdflib.plugins.sparql import prepareQuery
 
 from .. import run as R
 from .. import seams
@@ -52,9 +53,14 @@ def _rows_of_result(res):
     if res.type in ("CONSTRUCT", "DESCRIBE"):
         return ("graph", canon_rows(graph_rows(res.graph)))
     out = Counter()
+    seq = []
     for b in res.bindings:
-        out[tuple(sorted((str(v), tkey(t)) for v, t in b.items()))] += 1
-    return ("rows", tuple(sorted(out.items(), key=repr)))
+        r = tuple(sorted((str(v), tkey(t)) for v, t in b.items()))
+        out[r] += 1
+        seq.append(r)
+    # the sequence is part of the answer: "the same read twice" is the same call on the same unchanged store, so even an order the query leaves
+    # open is produced by the same deterministic walk
+    return ("rows", tuple(sorted(out.items(), key=repr)), tuple(seq))
 
 
 QUERIES = {
@@ -70,6 +76,8 @@ QUERIES = {
     "select-from-named": "SELECT * FROM NAMED <%sg1> WHERE { GRAPH ?g { ?s ?p ?o } }" % EX,
     "select-path": "SELECT * WHERE { ?s <%sp>* ?o }" % EX,
     "select-agg": "SELECT ?s (COUNT(?o) AS ?n) WHERE { ?s ?p ?o } GROUP BY ?s",
+    "select-ordered": "SELECT * WHERE { ?s ?p ?o } ORDER BY ?s DESC(?o)",
+    "select-ordered-3": "SELECT ?o ?p WHERE { ?s ?p ?o } ORDER BY DESC(?p) ?o DESC(?s) LIMIT 3",
     "ask": "ASK { ?s <%sp> ?o }" % EX,
     "ask-graph": "ASK { GRAPH ?g { ?s ?p ?o } }",
     "construct": "CONSTRUCT { ?o <%sr> ?s } WHERE { ?s ?p ?o FILTER(isIRI(?o)) }" % EX,
@@ -100,6 +108,9 @@ def reads_for(kind):
         if kind == "graph" and ("graph" in name or "from" in name):
             continue
         out.append(("query:" + name, q(text)))
+    # one prepared query object handed to both reads of a pair (built in run_pair, like the path objects)
+    for name in PREPARED:
+        out.append(("prepared:" + name, (lambda nm: lambda x: _rows_of_result(x.query(_prepared(nm))))(name)))
     # the path objects are built once per pair of reads (run_pair) and shared by both reads: "the same read twice" passes the same argument objects
     out.append(("path:triples", lambda x: ("set", frozenset((tkey(s), tkey(o)) for s, _, o in x.triples((None, _ENV["star"], None))))))
     out.append(("path:objects", lambda x: ("set", frozenset(tkey(o) for o in x.objects(A, _ENV["seq"])))))
@@ -198,6 +209,17 @@ def same_answer(a, b):
 _ENV = {}
 
 
+PREPARED = ["select-ordered", "select-ordered-3", "select-optional", "select-agg", "select-path", "construct", "describe-var"]
+
+
+def _prepared(name):
+    # parsed at its first use within a pair of reads (run_pair clears _ENV), then shared by the second read
+    k = "prepared:" + name
+    if k not in _ENV:
+        _ENV[k] = prepareQuery(QUERIES[name])
+    return _ENV[k]
+
+
 def fresh_paths():
     Q = URIRef(EX + "q")
     return {"star": MulPath(P, "*"), "seq": P / P, "seq3": P / P / P, "altinv": (P | ~P) / P, "neg": -(P | Q) | P}
@@ -266,22 +288,29 @@ def run(ctx):
     dreads = [n for n, _ in reads_for("dataset")]
     greads = [n for n, _ in reads_for("graph")]
     items = []
+
+    def pairs_of(reads):
+        # every ordered pair of reads; the prepared-query reads are paired with themselves and with each other only
+        plain = [n for n in reads if not n.startswith("prepared:")]
+        prep = [n for n in reads if n.startswith("prepared:")]
+        return [(a, b) for a in plain for b in plain] + [(a, b) for a in prep for b in prep]
+
     # datasets: every ordered pair of reads on the small universe, single reads (x2) on the larger one
     small = list(universe(2))
     large = list(universe(4 if thorough else 3))
     for union in (False, True):
         for content in small:
-            items.append((("dataset", content, union), [(a, b) for a in dreads for b in dreads]))
+            items.append((("dataset", content, union), pairs_of(dreads)))
         for content in large:
             items.append((("dataset", content, union), [(a, a) for a in dreads]))
     if thorough:
         mid = list(universe(3))
         for content in mid[:: 4]:
-            items.append((("dataset", content, False), [(a, b) for a in dreads for b in dreads]))
+            items.append((("dataset", content, False), pairs_of(dreads)))
     # plain graphs: all subsets of the universe triples (+ the 5th), every ordered pair of reads
     for r in range(0, len(TRIPLES) + 1):
         for sub in itertools.combinations(TRIPLES, r):
-            items.append((("graph", [t + (None,) for t in sub], False), [(a, b) for a in greads for b in greads]))
+            items.append((("graph", [t + (None,) for t in sub], False), pairs_of(greads)))
     # split the heavy items
     work = []
     for state, pairs in items:
